@@ -32,8 +32,11 @@ Record case := {
                            (* the primaries CPython's scoping really uses (c_used is what rope's finder, as
                               modelled in Unbound.v, sees: it misses a name used only in a default value or
                               decorator of a function that has a local of the same name) *)
-  c_hidden : list dotted   (* the primaries with an occurrence that CPython uses and rope's finder (and so its
+  c_hidden : list dotted;  (* the primaries with an occurrence that CPython uses and rope's finder (and so its
                               renaming) does not see *)
+  c_me : dotted;           (* absolute name of the module under test (it may import itself) *)
+  c_cmp_self : bool        (* harness: at most one spelling of a self import, or no bare use of them (the
+                              partial renaming after a ValueError depends on a set's iteration order) *)
 }.
 
 Definition prefs_of (c : case) : prefs := {| p_split := c_split c; p_alpha := c_alpha c |}.
@@ -41,7 +44,7 @@ Definition prefs_of (c : case) : prefs := {| p_split := c_split c; p_alpha := c_
 Definition model_on (c : case) (stmts : list stmt) (used : list dotted) : option (list stmt * list dotted) :=
   let lay := c_lay c in
   match c_action c with
-  | 0%N => option_map (fun l => (l, used)) (organize lay (prefs_of c) used (c_exported c) stmts)
+  | 0%N => organize_self lay (prefs_of c) (c_me c) used (c_exported c) stmts
   | 1%N => Some (expand_stars lay used (c_exported c) stmts, used)
   | 2%N => Some (relatives_to_absolutes lay stmts, used)
   | 3%N => froms_to_imports lay (prefs_of c) used (c_exported c) stmts
@@ -64,8 +67,15 @@ Definition meaning_preserved_b (lay : layout) (before after : list stmt) (us : l
 Definition loaded_preserved_b (before after : list stmt) (us : list dotted) : bool :=
   forallb (fun u => negb (dmem u (plain_loaded before)) || dmem u (loaded after)) us.
 
+(* no statement imports the module itself: organize_self is organize *)
+Definition self_free (c : case) : bool :=
+  forallb (fun s => match self_fixed (c_lay c) (c_me c) (s_info s), self_info (c_lay c) (c_me c) (s_info s) with
+                    | [], i => info_eqb i (s_info s) || is_empty (s_info s)
+                    | _, _ => false
+                    end) (c_stmts c).
+
 Definition side_organize (c : case) : bool :=
-  consistent (c_lay c) (c_stmts c) && star_table_complete (c_lay c) (c_stmts c).
+  consistent (c_lay c) (c_stmts c) && star_table_complete (c_lay c) (c_stmts c) && self_free c.
 
 (* every module reached by extending a used primary is loaded by an un-aliased plain import spelled the
    same way (then C07_organize_loaded_preserved keeps it loaded) *)
@@ -124,6 +134,7 @@ Definition run_case (c : case) : N :=
          re-exports foreign objects (harness flag) and no name is bound to two different objects (which
          of them rope's own name lookup picks is not modelled) *)
       if (N.leb 3 (c_action c)) && negb (c_cmp_used c && consistent (c_lay c) (c_stmts c)) then 0%N
+      else if N.eqb (c_action c) 0 && negb (c_cmp_self c) then 0%N
       else if negb (out_eqb c (map s_info l) r) then 1%N
       else if (N.leb 3 (c_action c)) && c_cmp_used c && negb (set_eqb us (c_out_used c)) then 4%N
       else if in_domain c && negb (meaning_preserved_b (c_lay c) (c_stmts c) l (theorem_names c)) then 3%N
@@ -158,6 +169,13 @@ Definition in_domain_indices (cs : list case) : list (N * N) := domain_from 0 cs
           used primaries. *)
 Definition py_lay (c : case) : layout :=
   {| l_star := c_pystar c ++ l_star (c_lay c); l_abs := l_abs (c_lay c); l_kind := l_kind (c_lay c) |}.
+
+Fixpoint strip (d u : dotted) : option dotted :=
+  match d, u with
+  | [], r => Some r
+  | x :: d', y :: u' => if text_eqb x y then strip d' u' else None
+  | _ :: _, [] => None
+  end.
 
 Definition abs_of (lay : layout) (m : dotted) (lv : N) : option dotted :=
   match assoc modref_eqb (m, lv) (l_abs lay) with
@@ -205,13 +223,21 @@ Definition den_eqb (a b : option (N * dotted * bool)) : bool :=
   | _, _ => false
   end.
 
-Fixpoint pairwise_same (lay : layout) (mods : list dotted) (before after : list stmt) (us us' : list dotted) : bool :=
+Definition under (me : option dotted) (d : option (N * dotted * bool)) : bool :=
+  match me, d with
+  | Some m, Some x => match strip m (snd (fst x)) with Some (_ :: _) => true | _ => false end
+  | _, _ => false
+  end.
+
+Fixpoint pairwise_same (lay : layout) (mods : list dotted) (me : option dotted) (before after : list stmt)
+         (us us' : list dotted) : bool :=
   match us, us' with
   | u :: r, u' :: r' =>
       (match denotes lay mods before u with
        | None => true                                   (* not bound by an import (a builtin, a definition) *)
-       | d => den_eqb (denotes lay mods after u') d
-       end) && pairwise_same lay mods before after r r'
+       | d => under me d                                (* the module's own definition reached through itself *)
+              || den_eqb (denotes lay mods after u') d
+       end) && pairwise_same lay mods me before after r r'
   | [], [] => true
   | _, _ => false
   end.
@@ -223,7 +249,7 @@ Definition predicts_semantic (c : case) : bool :=
       let ex := map (fun n => [n]) (c_exported c) in
       (* the primaries rope's finder does not see are not renamed *)
       let extra := c_hidden c in
-      negb (pairwise_same (py_lay c) (c_mods c) (c_stmts c) l (c_used c ++ extra ++ ex) (us ++ extra ++ ex))
+      negb (pairwise_same (py_lay c) (c_mods c) (if N.eqb (c_action c) 0 then Some (c_me c) else None) (c_stmts c) l (c_used c ++ extra ++ ex) (us ++ extra ++ ex))
   end.
 
 Definition predicts_idempotence (c : case) : bool :=
